@@ -271,6 +271,59 @@ def hist_inject(cases, outs):
     return h
 
 
+# ---------------------------------------------------------------------------------------------
+# e2e_pn  (C08)
+# case: [seed, retry_first, drop_pm, dup_pm, jitter_ms, delay_ms, n_bidi, bytes, max_ack_delay_ms,
+#        fault_until_ms, cc, n_uni, corrupt_pm]
+# ---------------------------------------------------------------------------------------------
+PN_LEN = 13
+
+
+def gen_pn(rng):
+    seed = rng.randrange(1, 1 << 48)
+    lossy = rng.random() < 0.7
+    return [seed, rng.choice([0, 1, 1, 1, 2]),
+            rng.choice([10, 50, 100, 200]) if lossy else 0,
+            rng.choice([0, 50, 300]) if lossy else 0,
+            rng.choice([0, 10, 50, 200]) if lossy else 0,
+            rng.choice([1, 5, 20, 50, 100]),
+            rng.choice([1, 2, 4]), rng.choice([0, 2000, 30000, 100000, 200000]),
+            rng.choice([0, 1, 5, 25, 100, 400]),
+            rng.choice([1000, 5000, 20000]), rng.choice([0, 1]), rng.choice([0, 1, 2]),
+            rng.choice([0, 0, 20, 100]) if lossy else 0]
+
+
+def fixed_pn(tier):
+    return [
+        [1, 1, 0, 0, 0, 20, 2, 20000, 0, 0, 0, 1, 0],        # one Retry, clean network
+        [2, 0, 0, 0, 0, 20, 2, 20000, 0, 0, 0, 1, 0],        # no Retry
+        [3, 2, 100, 100, 50, 50, 2, 100000, 5, 10000, 1, 1, 50],
+        [4, 1, 200, 300, 200, 5, 4, 200000, 100, 20000, 0, 2, 0],
+    ]
+
+
+def valid_pn(c):
+    return len(c) == PN_LEN and all(v >= 0 for v in c) and c[1] <= 2 and c[2] <= 200 and 1 <= c[6] <= 4 and c[7] <= 200000 and c[11] <= 2
+
+
+def nontrivial_pn(case, out):
+    return len(out) > 7 and out[2] == 1 and out[6] > 50
+
+
+def hist_pn(cases, outs):
+    h = {"with_retry": 0, "connected": 0, "capped": 0, "rows": 0, "ack_ranges": 0}
+    for c, o in zip(cases, outs):
+        if o.startswith("!"):
+            continue
+        v = _parse(o)
+        h["with_retry"] += 1 if c[1] > 0 else 0
+        h["connected"] += v[2]
+        h["capped"] += v[5]
+        h["rows"] += v[6]
+        h["ack_ranges"] += sum(1 for i in range(v[6]) if v[7 + 8 * i] == 2)
+    return h
+
+
 def _parse(o):
     return [(-int(t[1:], 16) if t.startswith("-") else int(t, 16)) for t in o.split()]
 
@@ -335,6 +388,12 @@ E2E_COMPONENTS = {
         "gen": gen_amp, "fixed": fixed_amp, "quick": 60, "thorough": 1500,
         "shard_lines": 1, "line_timeout": 300,
         "valid": valid_amp, "nontrivial": nontrivial_amp, "histogram": hist_amp,
+    },
+    "e2e_pn": {
+        "name": "e2e_pn", "harness": ("h_e2e", "E2E"), "ocaml": "E2E", "model": False,
+        "gen": gen_pn, "fixed": fixed_pn, "quick": 50, "thorough": 800,
+        "shard_lines": 1, "line_timeout": 300,
+        "valid": valid_pn, "nontrivial": nontrivial_pn, "histogram": hist_pn,
     },
     "e2e_inject": {
         "name": "e2e_inject", "harness": ("h_e2e", "E2E"), "ocaml": "E2E", "model": False,
